@@ -287,12 +287,22 @@ def _coverage(repo, rep):
            and n.func.attr == "update" and n.args]
     ups.sort(key=lambda n: (n.lineno, n.col_offset))
     fields = []
+    cls_attrs = []
     for u in ups:
         e = L.inline_locals(d.node, u.args[0])
         t_ = src(e).replace(" ", "")
+        for _ in range(3):      # locals of locals (cls = type(self))
+            e = L.inline_locals(d.node, e)
+        t_ = src(e).replace(" ", "")
         kind = "body" if "body" in t_ else \
-            "class" if "__name__" in t_ else \
+            "class" if ("type(self)" in t_ or "self.__class__" in t_) and (
+                "__name__" in t_ or "__qualname__" in t_) else \
             "filename" if "filename" in t_ else "other"
+        if kind == "class":
+            cls_attrs = sorted({n.attr for n in ast.walk(e)
+                                if isinstance(n, ast.Attribute)
+                                and n.attr in ("__name__", "__qualname__",
+                                               "__module__")})
         term = isinstance(e, ast.BinOp) and isinstance(e.op, ast.Add) and \
             isinstance(e.right, ast.Constant) and e.right.value in (
                 b"\n", b"\0", b";")
@@ -307,6 +317,14 @@ def _coverage(repo, rep):
               "the key covers the template source and the template class",
               construct="base:source-and-class", where=L.where(d),
               detail=str(fields))
+    if "class" in kinds:
+        rep.check("__module__" in cls_attrs and "__qualname__" in cls_attrs,
+                  "R15.1", d.qualname, "the template class is named by its "
+                  "module and qualified name (two classes called "
+                  "'PageTemplate' in two packages, one overriding parse(), "
+                  "must not share stored modules)",
+                  construct="base:class-qualified", where=L.where(d),
+                  detail=str(cls_attrs))
     rep.check("filename" in kinds, "R15.1", d.qualname, "the complete file "
               "name (with its extension) is hashed: the module's __filename "
               "is that of the template it is used for",
